@@ -79,6 +79,7 @@ struct Store {
     std::map<const void *, Handout> live;
     std::set<const void *> released;     // pointers released earlier (to tell double from foreign release)
     u64 gets = 0, releases = 0;
+    bool release_forbidden = false;      // the client's ops structure had no release_table member: any release call is the library's invention
     bool face_destroyed = false;         // set once the owning face's destroy (or failed ctor) has returned
     bool faulted = false;                // any fault fired
     void reset_counters() { nreq.clear(); }
